@@ -634,6 +634,46 @@ def check_outpos(ck, prog):
                "%s(): *out_pos is advanced on a path where `*out_pos == out_size` has not been tested since the last advance"
                % fname) if (nonunit or bad) else "%s(): no advance of *out_pos found" % fname,
               key="OUTPOS:" + fname)
+    # rc_encode() handles RC_FLUSH as a symbol: the loop normalises (range < RC_TOP_VALUE -> shift) BEFORE it looks at the
+    # next symbol, so a normalisation that the last real symbol left pending is done before the five flush bytes.  The
+    # dummy has no RC_FLUSH symbol; its loop therefore has to pass the normalisation test once more after the last symbol
+    # and only then leave for the flush, otherwise its byte count is one short for some symbol alignments.
+    fs = [f for f in prog.functions.get("rc_encode_dummy", []) if f.blocks]
+    if not fs:
+        raise AnalysisBroken("rc_encode_dummy vanished")
+    f = fs[0]
+    ck.saw_function(f)
+    incs = [b.id for b, i, e in f.iter_elems() for x in [ex.deref(e)] if x.get("k") == "un" and x.get("op") in ("pre++", "post++")
+            and ex.show(x["e"]) == "pos"]
+    norm = {b.id for b in f.blocks.values() if b.term and "cond" in b.term and "range" in ex.show(b.term["cond"]) and
+            ex.const_val(ex.strip(b.term["cond"]).get("r")) == (1 << 24)}
+    calls = [(b.id, ex.line(c) or 0) for b, i, e in f.iter_elems() for c in ex.calls(e, into_refs=True)
+             if c.get("fn") == "rc_shift_low_dummy"]
+    if not incs or not norm or len(calls) < 2:
+        raise AnalysisBroken("rc_encode_dummy: loop increment / normalisation test / flush call not found")
+    flushb = max(calls, key=lambda t: t[1])[0]
+    mainb = min(calls, key=lambda t: t[1])[0]
+    # the `++pos` of the symbol loop is the one from which the main-loop shift call is reachable again
+    sym_incs = [b for b in incs if mainb in cfg.reachable(f, [b]) and b != flushb]
+    open_ = False
+    for src in sym_incs:
+        seen, st = set(), [y for y in f.blocks[src].succs if y is not None]
+        while st:
+            x = st.pop()
+            if x in seen or x in norm:
+                continue
+            seen.add(x)
+            if x == flushb:
+                open_ = True
+                break
+            st.extend(y for y in f.blocks[x].succs if y is not None)
+    n += 1
+    ck.ob("C01-OUTPOS", "rc_encode_dummy:normalize-before-flush", bool(sym_incs) and not open_, common.where(f),
+          "rc_encode_dummy: after the last symbol the normalisation test is passed before the flush bytes are counted"
+          if sym_incs and not open_ else
+          "rc_encode_dummy(): the flush loop can be reached from `++pos` without passing `range < RC_TOP_VALUE`: a normalisation "
+          "left pending by the last symbol is not counted (rc_encode() performs it before RC_FLUSH), so the predicted size is "
+          "one byte short and an output-size-limited encoder exceeds its limit", key="OUTPOS:rc_encode_dummy:normalize-before-flush")
     return n
 
 
